@@ -31,8 +31,8 @@ const WORKER_STACK: usize = 8 << 20;
 const VIOLATION_DEPTH: usize = 256;
 /// address-space limit of a worker (KiB): 4 GiB; the largest legitimate case needs ~0.15 GiB
 const WORKER_AS_KIB: u64 = 4 << 20;
-/// time allowed for one case: 10 s plus 1 s per 4 KiB of input (the 100 KB / 10 000-statement inputs)
-fn allowed(len: usize) -> Duration { CASE_TIMEOUT + Duration::from_secs(len as u64 / 4096) }
+/// time allowed for one case: 10 s plus 1 s per KiB of input (for the 100 KB / 10 000-statement inputs)
+fn allowed(len: usize) -> Duration { CASE_TIMEOUT + Duration::from_secs(len as u64 / 1024) }
 
 // =============================================================================================
 // cases
@@ -155,6 +155,16 @@ fn eval_case(c: &Case) -> Verdict {
 }
 
 fn sigkey_prefix(c: &Case) -> String { if c.sigkey.is_empty() { String::new() } else { format!("{}:", c.sigkey) } }
+
+/// coarse, position-free key of a generated case: its description without the template prefix, values and digits
+fn desc_key(desc: &str) -> String {
+    let d = desc.split_once(": ").map(|x| x.1).unwrap_or(desc);
+    let d = d.split(" = ").next().unwrap_or(d);
+    let d = d.split(", ").next().unwrap_or(d);
+    let mut out = String::new();
+    for c in d.chars().take(60) { if c.is_ascii_digit() { if !out.ends_with('N') { out.push('N'); } } else { out.push(c); } }
+    out
+}
 
 fn death_cause(how: &str) -> String {
     if how.contains("overflowed its stack") || how.contains("stack overflow") { return "stack-overflow".into(); }
@@ -482,27 +492,33 @@ fn seeds() -> Vec<Seed> {
     add("anm12-names", Kind::Anm, "th12", format!("{ANM_ENTRY}script -3 script0 {{\n    ins_3(sprite0);\ninterrupt[1]:\n    F0 = sin(F1) * 2.0;\n    loop {{\n+10:\n        nop();\n        if (I0 == 0) break;\n        I0 -= 1;\n    }}\n}}\nscript script1 {{\n    ins_88(script0);\n}}\n"), Some(ANM_NAMES));
     add("anm16-float", Kind::Anm, "th16", format!("{ANM_ENTRY}script script0 {{\n    float y = %REG[10004] + 1.0;\n    %REG[10005] = (y * 2.0) - (y / 3.0);\n    while ($REG[10000] < 10) {{ $REG[10000] += 1; }}\n-1:\n    ins_1();\n}}\n"), None);
     add("anm12-const", Kind::Anm, "th12", format!("const int N = 2 + 3;\n{ANM_ENTRY}script script0 {{\n    ins_6(N, $REG[10001]);\n    ins_7(1.0:2.0, rad(3.0));\n    unless (N != 5) {{ ins_0(); }}\n}}\n").replace("1.0:2.0", "1.5"), None);
+    add("anm12-two-entries", Kind::Anm, "th12", format!("{ANM_ENTRY}script 3 first {{\n    ins_3(sprite0);\n}}\nentry {{\n    path: \"other.png\",\n    has_data: false,\n    img_width: 16, img_height: 16, img_format: 1,\n    sprites: {{other0: {{x: 1.0, y: 2.0, w: 3.0, h: 4.0}}}},\n}}\nscript second {{\n    ins_3(other0);\n    ins_88(first);\n}}\n"), None);
+    add("anm16-jumps", Kind::Anm, "th16", format!("{ANM_ENTRY}script script0 {{\nl:\n    ins_200(offsetof(l), timeof(l));\ninterrupt[2]:\n-5:\n    goto l @ 10;\n    $REG[10000] = $REG[10000] % 7;\n}}\n"), None);
     // ---- trustd
     add("std06-basic", Kind::Std, "th06", format!("{STD06_META}script main {{\n    ins_0(1.0, 2.0, 3.0);\n10:\n    ins_3(@blob=\"01000000 02000000 03000000\");\n}}\n"), None);
     add("std06-loop", Kind::Std, "th06", format!("{STD06_META}script main {{\n    ins_1(0x10, 20.0, 30.0);\n+100:\n    ins_2(1.0, 2.0, 3.0);\n-5:\n    ins_4(1);\n}}\n"), None);
     add("std12-basic", Kind::Std, "th12", format!("{STD12_META}script main {{\n    ins_2(1.0, 2.0, 3.0);\n10:\n    ins_3(60, 1, 1.0, 2.0, 3.0);\n30:\n    ins_0();\n}}\n"), None);
     add("std12-loop", Kind::Std, "th12", format!("{STD12_META}script main {{\n    loop {{\n        ins_7(0.5);\n    +30:\n        ins_0();\n    }}\n}}\n"), None);
+    add("std12-interrupt", Kind::Std, "th12", format!("{STD12_META}script main {{\n    ins_7(0.5);\ninterrupt[1]:\n+60:\n    ins_8(0xff102030, 100.0, 200.0);\nend:\n    goto end;\n}}\n"), None);
     // ---- trumsg
     add("msg06-basic", Kind::Msg, "th06", format!("meta {{\n    table: {{0: {{script: \"script0\"}}, 3: {{script: \"other\"}}, default: {{script: \"script0\"}}}},\n}}\nscript script0 {{\n    ins_1(0, 2);\n10:\n    ins_3(0, 1, \"hello\");\n    ins_0();\n}}\nscript other {{\n    ins_4(42);\n}}\n"), None);
     add("msg09-basic", Kind::Msg, "th09", format!("{MSG09_META}script main {{\n    ins_1(@blob=\"01000200\");\n+60:\n    ins_16(\"text\");\n    ins_0();\n}}\n"), None);
     add("msg12-basic", Kind::Msg, "th12", format!("meta {{\n    table_len: 4,\n    table: {{0: {{script: \"main\", flags: 256}}, default: {{script: \"main\", flags: 3}}}},\n}}\nscript main {{\n    ins_2();\n5:\n    ins_17(\"line one\");\n    ins_0();\n}}\n"), None);
     add("end10-basic", Kind::End, "th10", format!("{MSG06_META}script main {{\n    ins_3(\"a line\");\n+30:\n    ins_5(1);\n    ins_0();\n}}\n"), None);
+    add("msg06-escapes", Kind::Msg, "th06", format!("meta {{\n    table: {{1: {{script: \"b\"}}, 0: {{script: \"a\"}}}},\n}}\nscript a {{\n    ins_3(0, 0, \"he said \\\"hi\\\"\\n\");\n    ins_8(1, \"日本語\");\n}}\nscript b {{\n-1:\n    ins_0();\n}}\n"), None);
     add("mission095", Kind::Mission, "th095", "entry { stage: 1, scene: 2, face: 3, point: 4, text: [\"abc\", \"\", \"line three\"] }\nentry { stage: 10, scene: 6, face: 0, point: 1234567, text: [\"x\", \"y\", \"z\"] }\n".into(), None);
     add("mission125", Kind::Mission, "th125", "entry { stage: 1, scene: 2, player: 1, unknown_1: 7, unknown_2: 9, point_1: 3, point_2: 4,\n        furigana: [[1, 2], [3, 4], [5, 6]], text: [\"abc\", \"\", \"line three\", \"d\", \"e\", \"f\"] }\n".into(), None);
     // ---- truecl (olde)
     add("ecl06-subs", Kind::Ecl, "th06", "script timeline0 {\n    ins_0(@arg0=1, @blob=\"00000000 0000803f 00000040 04000300 02000000\");\n10:\n    ins_10(@arg0=0, @blob=\"01000000 02000000\");\n}\nvoid sub0() {\n    ins_0();\n5:\n    {\"2\"}: ins_4(@blob=\"10270000 05000000\");\n    {\"*\"}: ins_1(@blob=\"00000000\");\n}\nvoid sub1() {\n20:\n    ins_35(@blob=\"00000000 00000000 00000000\");\n}\n".into(), None);
     add("ecl06-expr", Kind::Ecl, "th06", "script timeline0 {}\nvoid sub0() {\n    int a = I0 + 2;\n    F0 = (F1 + 1.0) * 2.0;\n    I1 = 3:4:5:6;\n    {\"EN\"}: nop();\n    if (a < 5) { I0 = a; } else if (a == 7) { goto out; } else { I0 = -a; }\nout:\n    sub1(3, 1.5);\n}\nvoid sub1(int x, float y) {\n    I1 = x;\n    F1 = y;\n}\n".into(), Some(ECL_NAMES_06));
     add("ecl06-timeline", Kind::Ecl, "th06", "script timeline0 {\n    ins_0(sub0, 1.0, 2.0, 3.0, 4, 5, 6);\n+30:\n    ins_2(sub1, 1.0, 2.0, 3.0, 4, 5, 6);\n    ins_10(1, 2);\n}\nvoid sub0() {\n    loop { +1: nop(); }\n}\nvoid sub1() {\n    times(I1 = 4) { I0 += 1; }\n}\n".into(), Some(ECL_NAMES_06));
+    add("ecl06-cmp", Kind::Ecl, "th06", "script timeline0 {}\nvoid sub0() {\nlabel:\n    ins_27($REG[-10001], 5);\n    ins_29(timeof(label), offsetof(label));\n    {\"0\"}: ins_0();\n    while ($REG[-10002] >= 1) { $REG[-10002] -= 1; }\n    unless (%REG[-10005] == 0.0) goto label @ 3;\n}\n".into(), None);
     add("ecl07-basic", Kind::Ecl, "th07", "script timeline0 {\n    ins_0(sub0, 1.0, 2.0, 3.0, 4, 5, 6);\n}\nscript timeline1 {\n7:\n    ins_11(4);\n}\nvoid sub0() {\n    $REG[10000] = $REG[10001] * 3 - 1;\n    %REG[10004] = cos(%REG[10005]);\n    {\"1\"}: ins_0();\n    do { $REG[10000] -= 1; } while ($REG[10000] > 0);\n}\n".into(), None);
     add("ecl07-call", Kind::Ecl, "th07", "script timeline0 {}\nvoid sub0() {\n    int i = 2;\n    float f = 0.5 + %REG[10004];\n    sub1(i, f);\n}\nvoid sub1(int a, float b) {\n    $REG[10000] = a;\n    %REG[10004] = b;\n}\n".into(), None);
     add("ecl08-expr", Kind::Ecl, "th08", "script timeline0 {}\nvoid sub0() {\n    int a = I0 + 2;\n    F0 = (F1 + 1.0) * 2.0;\n    I1 = 3:4:5:6;\n    {\"H\"}: nop();\n    if (a < 5 && I1 != 0) { I0 = a; } else { I0 = a > 3 ? 1 : 2; }\n    I0 = -I1 + (a % 2);\n}\n".into(), Some(ECL_NAMES_08));
     add("ecl08-timeline", Kind::Ecl, "th08", "script 1 second {\n    ins_0(sub0, 1.0, 2.0, 4, 5, 6);\n10:\n    ins_9(3);\n}\nscript 0 first {\n    ins_16();\n}\nvoid sub0() {\nagain:\n    ins_0();\n+8:\n    if ($REG[10000] != 0) goto again;\n    sub1();\n}\nvoid sub1() {}\n".into(), None);
     add("ecl08-call", Kind::Ecl, "th08", "script timeline0 {}\nconst float K = 1.5;\nvoid sub0() {\n    sub1(1, 2, K, $REG[10000]);\n    times(3) { sub1(0, 0, 0.0, 0); }\n}\nvoid sub1(int a, int b, float c, int d) {\n    $REG[10000] = a + b + d;\n    %REG[10016] = c;\n}\n".into(), None);
+    add("ecl08-loops", Kind::Ecl, "th08", "script timeline0 {}\nvoid sub0() {\n    float f = 1.0;\n    int n = 0;\n    while (n < 3) { n += 1; f *= 2.0; }\n    do { n -= 1; } while (n > 0);\n    unless (f >= 4.0) { %REG[10016] = f; }\n    times(n = 2) { $REG[10000] = n; }\n}\n".into(), None);
     v
 }
 
@@ -1144,7 +1160,9 @@ fn gen_cases(item: &str, thorough: bool) -> Vec<Case> {
         "late" => late_cases(parts[1], parts[2]),
         _ => panic!("unknown item {item}"),
     };
-    for c in &mut cases { if parts[0] == "nest" { c.sigkey = format!("nest-{}", parts[1]); } }
+    for c in &mut cases {
+        c.sigkey = match parts[0] { "nest" => format!("nest-{}", parts[1]), "lit" | "map" | "late" => desc_key(&c.desc), f => f.to_string() };
+    }
     cases
 }
 
